@@ -171,7 +171,8 @@ def classify_o1(res) -> str:
 def run_o1(run, tier):
     from concurrent.futures import ProcessPoolExecutor
     bound = 6 if tier == "quick" else 0
-    jobs = [(t, p, bound) for t, p in OPS_O1] + [(t, p, bound) for t, p in OPS_SIGNED]
+    # numerals need room for the float-precision region (> 2**53 has 16 digits)
+    jobs = [(t, p, (20 if bound and "str.to.int" in t else bound)) for t, p in OPS_O1] + [(t, p, (20 if bound else 0)) for t, p in OPS_SIGNED]
     with ProcessPoolExecutor(max_workers=min(common.NCPU, len(jobs))) as ex:
         results = list(ex.map(o1_worker, jobs))
     for res in results:
@@ -184,7 +185,7 @@ def run_o1(run, tier):
             run.extra.setdefault("no_fast_path", []).append(res["op"])
         elif st == "violated":
             run.disagreements_checked += 1
-            run.violation(name, classify_o1(res), "z3-5.1.0+cvc5",
+            run.violation(name, classify_o1(res) + ("|signed-numerals" if name.endswith("|signed") else ""), "z3-5.1.0+cvc5",
                           "%s: python `%s` vs Z3 on %r -> %s" % (res["op"], res["python"], res["model"], res["replay"]),
                           dict(kind="op", op=res["op"], model=res["model"]),
                           res["solver_s"])
